@@ -14,6 +14,12 @@ import (
 // Locks, Once and atomics of the instrumented packages are modelled here (the
 // vsync/vatomic shims call syncHook instead of the real primitives).
 
+const (
+	accRead  = 0
+	accWrite = 1
+	accUse   = 2
+)
+
 type opKind int
 
 const (
@@ -82,6 +88,7 @@ type addrState struct {
 	reads     map[int]*accessRec
 	threads   map[int]bool
 	sites     map[string]bool
+	mutated   bool // written, or used by a possibly mutating callee, by a scheduled thread
 }
 
 type sched struct {
@@ -130,13 +137,17 @@ func racePair(a, b string) string {
 	return a + " <-> " + b
 }
 
-// access records a field access for the happens-before oracle and makes it a
-// scheduling point when its site is shared.
-func (s *sched) access(addr uintptr, write bool, site string) {
+// access records an access for the happens-before oracle and makes it a
+// scheduling point when its site is shared. Accesses to a location commute
+// unless one of them writes it (or hands it to a callee that may mutate what
+// it refers to), so only locations touched by two threads AND mutated by one
+// of them make their sites scheduling points.
+func (s *sched) access(addr uintptr, kind int, site string) {
 	t := s.cur
 	if t == nil {
 		return
 	}
+	write := kind == accWrite
 	as := s.addrs[addr]
 	if as == nil {
 		as = &addrState{reads: map[int]*accessRec{}, threads: map[int]bool{}, sites: map[string]bool{}}
@@ -144,7 +155,10 @@ func (s *sched) access(addr uintptr, write bool, site string) {
 	}
 	as.threads[t.id] = true
 	as.sites[site] = true
-	if len(as.threads) > 1 {
+	if kind != accRead {
+		as.mutated = true
+	}
+	if len(as.threads) > 1 && as.mutated {
 		for st := range as.sites {
 			if s.shared != nil && !s.shared[st] {
 				s.promoted[st] = true
@@ -154,7 +168,8 @@ func (s *sched) access(addr uintptr, write bool, site string) {
 	if s.shared == nil || s.shared[site] {
 		s.point(&schedOp{kind: opAccess, addr: addr, write: write, site: site})
 	}
-	// vector-clock check at the moment the access happens
+	// vector-clock check at the moment the access happens ("use" counts as a
+	// read of the variable: what the callee does to the referent is not known)
 	rec := &accessRec{t: t.id, clock: t.vc[t.id], site: site}
 	if w := as.lastWrite; w != nil && w.t != t.id && !t.vc.covers(w.t, w.clock) {
 		kind := "write-read"
@@ -388,9 +403,9 @@ func (s *sched) run(prelude func(), bodies []func() string) {
 func runScheduled(x *xplore.Ctx, shared map[string]bool, prelude func(), bodies []func() string) *sched {
 	s := newSched(x, shared)
 	curSched = s
-	setFieldHook(func(addr uintptr, write bool, site string) {
+	setFieldHook(func(addr uintptr, kind int, site string) {
 		if cs := curSched; cs != nil && cs.cur != nil {
-			cs.access(addr, write, site)
+			cs.access(addr, kind, site)
 		}
 	})
 	setSyncHook(func(kind int, addr uintptr) int {
